@@ -204,10 +204,14 @@ def run(plan: dict[str, Any]) -> dict[str, Any]:
                 nontrivial = True
                 continue   # timer restarted by a later 'on' (ties within 1e-5 unjudged)
             t_reset = tg["t"] + r
-            off_between = [x for j, x in enumerate(tgs) if x["v"] == 0 and tg["t"] <= x["t"] <= t_reset and j > i]
+            off_between = [x for j, x in enumerate(tgs) if x["v"] == 0 and tg["t"] <= x["t"] <= t_reset + 1e-5 and j > i]
             if kind == "switch_reset":
-                # the switch enqueues its 'off' at exactly that instant
-                if not any(abs((p - t0) - t_reset) < eps for p in off_puts):
+                # the switch enqueues its 'off' at exactly that instant - unless an 'off' telegram (or its own 'off' of an
+                # earlier timer, processed only now) has switched it off meanwhile
+                own_late = any(tg["t"] - 0.02 <= p - t0 < t_reset - eps for p in off_puts)
+                if off_between or own_late:
+                    R.probes["switch_off_before_its_reset_time"] += 1
+                elif not any(abs((p - t0) - t_reset) < eps for p in off_puts):
                     R.violate("C42.switch-reset", "off-not-sent-at-reset-time",
                               f"last 'on' at {tg['t']}, reset_after {r}: no 'off' queued at {t_reset}; queued at {[round(p - t0, 6) for p in off_puts]}")
             else:
@@ -234,6 +238,51 @@ def run(plan: dict[str, Any]) -> dict[str, Any]:
                     last_on = max(x["t"] for x in live)
                     if tp < last_on + r - 1e-5 and not any(abs(tp - (x["t"] + r)) < 1e-5 for x in live):
                         R.violate("C42.switch-reset", "off-sent-early", f"'off' queued at {tp}, last 'on' at {last_on}, reset_after {r}")
+    if kind in ("switch_reset", "bs_both"):
+        # once an 'off' telegram has arrived there is nothing left to reset: the timer of the 'on' before it must not act any
+        # more - no redundant 'off' telegram of the switch, no 'off' event counted by the sensor that no telegram stands for.
+        # Reference: 'on' arms the timer (again), 'off' disarms it, the timer fires only while the device is on.
+        r = cfg["reset"]
+        state_on, deadline, tie = False, None, False
+        resets: list[float] = []          # instants at which a reset found the device on
+        disarmed: list[tuple[float, float, float]] = []   # (t_on, t_off, deadline the 'off' telegram disarmed)
+        armed_by = None
+        for tg in tgs:
+            if tg.get("iters"):
+                tie = True
+            while deadline is not None and deadline < tg["t"] - 1e-5:
+                resets.append(deadline)
+                state_on, deadline = False, None
+            if deadline is not None and abs(deadline - tg["t"]) <= 1e-5:
+                tie = True
+                break
+            if tg["v"] == 1:
+                state_on, deadline, armed_by = True, tg["t"] + r, tg["t"]
+            else:
+                if deadline is not None:
+                    disarmed.append((armed_by, tg["t"], deadline))
+                state_on, deadline = False, None
+        if deadline is not None:
+            resets.append(deadline)
+        if not tie:
+            if kind == "switch_reset":
+                for (t_on, t_off, dl) in disarmed:
+                    if abs(t_off - t_on) <= 0.02 or any(abs(x["t"] + r - dl) <= 1e-5 for x in tgs if x["v"] == 1 and x["t"] != t_on):
+                        continue        # the 'off' may have been processed before the 'on' it follows so closely
+                    if any(abs((p_ - t0) - dl) < eps for p_ in off_puts):
+                        R.violate("C42.switch-reset", "off-sent-although-already-off",
+                                  f"'on' at {t_on}, 'off' telegram at {t_off}, reset_after {r}: the switch still sent an 'off' at {dl}")
+            else:
+                for (tc, st, c_) in cb_log:
+                    if st is not False or not c_:
+                        continue
+                    offs = sum(1 for x in tgs if x["v"] == 0 and x["t"] <= tc - t0 + 1e-5)
+                    n_res = sum(1 for d in resets if d <= tc - t0 + 1e-5)
+                    if c_ > offs + n_res:
+                        R.violate("C42.counter", "off-counter-exceeds-off-events",
+                                  f"reset_after {r}: a callback at {tc - t0:.3f} reports 'off' counter {c_}; {offs} 'off' telegrams "
+                                  f"and {n_res} resets of a sensor that was on had happened (telegrams {[(x['t'], x['v']) for x in tgs][:8]})")
+                        break
     if kind == "bs_counter":
         c = cfg["ctx"]
         # bursts: maximal runs with gaps < c (strict); judged only if pure and not adjacent to a tie
